@@ -25,6 +25,7 @@ var (
 	errOneAllocateOnly               = errors.New("only one Allocate() caller is allowed")
 	errAlreadyAllocated              = errors.New("already allocated")
 	errNonSTUNMessage                = errors.New("non-STUN message from STUN server")
+	errRelayedDataFromStranger       = errors.New("relayed data not sent by the TURN server")
 	errZeroAllocationLifetime        = errors.New("allocation success response with a zero lifetime")
 	errFailedToDecodeSTUN            = errors.New("failed to decode STUN message")
 	errUnexpectedSTUNRequestMessage  = errors.New("unexpected STUN request message")
